@@ -320,7 +320,7 @@ theorem finishFrameImpl_eq (res : FrameRes) (f : FR) :
     have h3 : (srcDiscard f.rem f.src).2.flatten = [] := by
       rw [h2, List.drop_eq_nil_of_le (by omega)]
     simp only [finishFrameImpl, finishFrame, FR.drain, hd, if_neg h]
-    cases res <;> simp [h3]
+    cases res <;> simp [h3, FrameRes.continues]
 
 theorem srcReadByte_spec (cs : Chunks) :
     match srcReadByte cs with
@@ -497,7 +497,7 @@ theorem finishFrame_rest (res : FrameRes) (rem : Nat) (s : Bytes) (h : rem ≤ s
 /-- `drain` never changes an error already present. -/
 theorem finishFrame_fail_res (e : Err) (rem : Nat) (s : Bytes) :
     (finishFrame (.fail e) rem s).res = .fail e := by
-  unfold finishFrame; split <;> rfl
+  unfold finishFrame; split <;> simp [FrameRes.continues]
 
 /-- `drain` never skips more than the budget. -/
 theorem finishFrame_le (res : FrameRes) (rem : Nat) (s : Bytes) :
@@ -505,7 +505,7 @@ theorem finishFrame_le (res : FrameRes) (rem : Nat) (s : Bytes) :
   unfold finishFrame
   split
   · simp only [List.length_drop]; omega
-  · cases res <;> simp only [List.length_nil] <;> omega
+  · split <;> simp only [List.length_nil] <;> omega
 
 /-- The ideal stream reader only consumes. -/
 theorem runStream_rest_le (p : Prog α) (s : Bytes) : (runStream p s).rest.length ≤ s.length := by
